@@ -46,11 +46,11 @@ STAGE_A = {
         ("N5-P1-V1 (1 of 8)", consts(N=5, V=1, Mx=5, CAs={0, 1, 2}, PAs={1, 2}, NSlices=8), INVS),
         ("N5-P1-V1-M3 (1 of 8)", consts(N=5, V=1, M=3, Mx=4, CAs={0, 1, 2}, PAs={1, 2}, NSlices=8), INVS),
         # NSlices > 1 in stage A: one slice of the initial states (chosen by the seed) is model-checked
-        ("N6-P1-V1-M2 (1 of 1024)", consts(N=6, V=1, M=2, Mx=5, CAs={1}, PAs={2}, NSlices=1024), INVS),  # 90 ms per state: 1/512 = 375 s
-        ("N3-P2-V2-equal (1 of 32)", consts(N=3, P=2, V=2, Mx=3, CAs={0, 2}, PAs={1}, BetaSel="equal", PBs={0, 1}, NSlices=32), INVS),
+        ("N6-P1-V1-M2 (1 of 4096)", consts(N=6, V=1, M=2, Mx=5, CAs={1}, PAs={2}, NSlices=4096), INVS),  # 90 ms per state: 1/512 = 375 s
+        ("N3-P2-V2-equal (1 of 64)", consts(N=3, P=2, V=2, Mx=3, CAs={0, 2}, PAs={1}, BetaSel="equal", PBs={0, 1}, NSlices=64), INVS),
         ("N3-P2-V1-general", consts(N=3, P=2, V=1, Mx=3, CAs={0, 1}, PAs={1}, BetaSel="general", PBs={0, 1}),
          INVS + ["RefIsOpt"]),
-        ("N4-P2-V1-general (1 of 128)", consts(N=4, P=2, V=1, Mx=3, CAs={1}, PAs={1}, BetaSel="general", PBs={0}, NSlices=128), INVS),
+        ("N4-P2-V1-general (1 of 256)", consts(N=4, P=2, V=1, Mx=3, CAs={1}, PAs={1}, BetaSel="general", PBs={0}, NSlices=256), INVS),
         ("N2-P3-V1-general", consts(N=2, P=3, V=1, Mx=2, CAs={0, 1}, PAs={1}, BetaSel="general", PBs={0, 1}),
          INVS + ["RefIsOpt"]),
     ],
